@@ -4,7 +4,9 @@ package main
 
 import (
 	"fmt"
+	"go/constant"
 	"go/token"
+	"go/types"
 	"regexp"
 	"sort"
 	"strings"
@@ -568,6 +570,7 @@ func runG5(c *Ctx, e *nilEngine) {
 			strong(f)
 		}
 	}
+	runSelfFormatting(c)
 	if len(cycles) == 0 {
 		c.Proved("G5", "module", "no recursion", "-", fmt.Sprintf("the call graph over %d in-scope functions is acyclic", len(e.fns)))
 		return
@@ -580,6 +583,136 @@ func runG5(c *Ctx, e *nilEngine) {
 		sort.Strings(names)
 		c.Violated("G5", names[0], "recursion "+strings.Join(names, " <-> "), p.pos(comp[0].Pos()), "recursive call cycle without a termination argument: "+strings.Join(names, ", "))
 	}
+}
+
+// runSelfFormatting: recursion that the call graph does not show. A String / Error / GoString method that hands its
+// own receiver, as a value of the type that has the method, to a formatting function of fmt or log (directly, through
+// the variadic slice, or through a helper of the module that passes its argument on) is called again by the
+// formatter for the verbs %v, %s, %q: unbounded recursion, a stack overflow that recover() cannot stop, on the first
+// value that takes that path. The library formats its own values in log lines (`%+v` of a row), so the parsers
+// reach these methods.
+func runSelfFormatting(c *Ctx) {
+	p := c.P
+	n := 0
+	formatterCall := func(call *ssa.Call, argIdx int) bool {
+		name := calleeName(call)
+		if !strings.HasPrefix(name, "fmt.") && !strings.HasPrefix(name, "log.") && !strings.HasPrefix(name, "(*log.Logger).") {
+			return false
+		}
+		// a constant format without %v, %s, %q (and their flagged forms) does not call the method
+		for _, a := range call.Call.Args {
+			if k, isK := a.(*ssa.Const); isK && k.Value != nil && k.Value.Kind() == constant.String && strings.Contains(name, "f") {
+				f := constant.StringVal(k.Value)
+				calls := false
+				for i := 0; i < len(f); i++ {
+					if f[i] != '%' {
+						continue
+					}
+					j := i + 1
+					for j < len(f) && strings.ContainsRune("+-# 0123456789.*[]", rune(f[j])) {
+						j++
+					}
+					if j < len(f) && strings.ContainsRune("vsq", rune(f[j])) {
+						calls = true
+					}
+					i = j
+				}
+				if !calls {
+					return false
+				}
+			}
+		}
+		return true
+	}
+	var reaches func(v ssa.Value, d int, seen map[ssa.Value]bool) string
+	reaches = func(v ssa.Value, d int, seen map[ssa.Value]bool) string {
+		if v.Referrers() == nil || seen[v] || d > 4 {
+			return ""
+		}
+		seen[v] = true
+		for _, r := range *v.Referrers() {
+			switch x := r.(type) {
+			case *ssa.Call:
+				for k, a := range x.Call.Args {
+					if a != v {
+						continue
+					}
+					if formatterCall(x, k) {
+						return calleeName(x) + " at " + p.ipos(x)
+					}
+					if h := staticCallee(x); h != nil && p.isModuleFn(h) && len(h.Blocks) > 0 && k < len(h.Params) {
+						if w := reaches(h.Params[k], d+1, seen); w != "" {
+							return w + " (through " + shortName(h) + ")"
+						}
+					}
+				}
+			case *ssa.Store:
+				if x.Val != v {
+					continue
+				}
+				// the variadic slice: store into an element of a fresh array that is then sliced
+				if ia, isIA := x.Addr.(*ssa.IndexAddr); isIA {
+					if al, isAlloc := ia.X.(*ssa.Alloc); isAlloc {
+						for _, ar := range *al.Referrers() {
+							if sl, isSl := ar.(*ssa.Slice); isSl {
+								if w := reaches(sl, d, seen); w != "" {
+									return w
+								}
+							}
+						}
+					}
+				}
+			case *ssa.Phi:
+				if w := reaches(x, d, seen); w != "" {
+					return w
+				}
+			case *ssa.ChangeInterface:
+				if w := reaches(x, d, seen); w != "" {
+					return w
+				}
+			}
+		}
+		return ""
+	}
+	for _, fn := range p.ModFns {
+		if fn.Signature.Recv() == nil || len(fn.Blocks) == 0 || len(fn.Params) == 0 {
+			continue
+		}
+		switch fn.Name() {
+		case "String", "Error", "GoString":
+		default:
+			continue
+		}
+		if fn.Signature.Params().Len() != 0 || fn.Signature.Results().Len() != 1 {
+			continue
+		}
+		n++
+		recvT := fn.Signature.Recv().Type()
+		hasMethod := func(t types.Type) bool {
+			ms := p.SSA.MethodSets.MethodSet(t)
+			for i := 0; i < ms.Len(); i++ {
+				if ms.At(i).Obj().Name() == fn.Name() {
+					return true
+				}
+			}
+			return false
+		}
+		_ = recvT
+		bad := ""
+		for _, b := range fn.Blocks {
+			for _, in := range b.Instrs {
+				mi, ok := in.(*ssa.MakeInterface)
+				if !ok || !hasMethod(mi.X.Type()) || typeName(mi.X.Type()) != typeName(recvT) {
+					continue
+				}
+				if w := reaches(mi, 0, map[ssa.Value]bool{}); w != "" && bad == "" {
+					bad = "a value of its own type (" + typeName(mi.X.Type()) + ") is handed to " + w
+				}
+			}
+		}
+		c.Check(bad == "", "G5", shortName(fn), "the method does not format a value of its own type", p.pos(fn.Pos()), "no value of the method's type reaches a fmt / log formatter with a verb that calls the method", bad+": the formatter calls the method again, without bound (stack overflow for the first value that takes this path, e.g. in a `%+v` log line of a parser)")
+	}
+	c.Stats["G5 formatting methods"] = n
 }
 
 // ------------------------------------------------------------ init-time constants
